@@ -3,6 +3,7 @@ import ObiVerif.Model.Fasta
 import ObiVerif.Model.Fastq
 import ObiVerif.Model.FlatFile
 import ObiVerif.Model.Sniff
+import ObiVerif.Model.ReadGlueCli
 import ObiVerif.Driver.Util
 /-! line protocol for C01 (see harness/c01.go for the ops) -/
 namespace ObiVerif.Driver.C01
@@ -50,6 +51,50 @@ def pipeResult (parse : Seq → Except Fatal (List Rec)) (cs : List Seq) : Strin
   if rs.any (fun r => match r with | .error .panic => true | _ => false) then "panic"
   else if rs.any (fun r => match r with | .error _ => true | _ => false) then "fatal"
   else showRecs (rs.flatMap fun r => match r with | .ok l => l | .error _ => [])
+
+/-! ### glue pass: several input files (`mread`, `cli`, `cmd` of harness/c01_glue.go) -/
+
+/-- `key=<nat>` -/
+def kvNat? (key tok : String) : Option Nat :=
+  match tok.splitOn "=" with
+  | [k, v] => if k == key then v.toNat? else none
+  | _ => none
+
+def kvStr? (key tok : String) : Option String :=
+  match tok.splitOn "=" with
+  | [k, v] => if k == key then some v else none
+  | _ => none
+
+/-- number of records of an input token `<kind>:<nrec>:…` (`empty`: none) -/
+def glueNrec (tok : String) : Option Nat :=
+  if tok == "empty" then some 0 else
+  match tok.splitOn ":" with
+  | _ :: n :: _ => n.toNat?
+  | _ => none
+
+/-- (inputs, `k=` batches of each file, `t=` file of the batch numbered 0, 1, 2, … with the unattributed empty batches
+removed, number of batches) -/
+def glueObs (rest : List String) : Option (List Nat × List Nat × List Nat × Nat) := do
+  let specs := rest.filter fun t => !(t.startsWith "k=" || t.startsWith "t=")
+  let nrecs ← specs.mapM glueNrec
+  let kTok ← rest.find? (·.startsWith "k=")
+  let tTok ← rest.find? (·.startsWith "t=")
+  let kS ← kvStr? "k" kTok
+  let tS ← kvStr? "t" tTok
+  let ks ← (kS.splitOn ",").mapM String.toNat?
+  let toks := if tS == "-" then [] else tS.splitOn ","
+  let tr ← (toks.filter (· != "e")).mapM String.toNat?
+  if ks.length != nrecs.length then none else
+  some (nrecs, ks, tr, toks.length)
+
+/-- the observation replayed on the transition system of `ReadSequencesBatchFromFiles` with `nreader` readers -/
+def glueVerdict (nreader : Nat) (obs : List Nat × List Nat × List Nat × Nat) : String :=
+  let (nrecs, ks, tr, nb) := obs
+  -- a file without record delivers no batch
+  if (nrecs.zip ks).any (fun p => p.1 == 0 && p.2 != 0) then "illegal-trace" else
+  match ObiVerif.ReadGlueCli.replay ks nreader tr with
+  | some _ => s!"ok {nb} {nrecs.sum}"
+  | none => "illegal-trace"
 
 def run (line : String) : String :=
   match words line with
@@ -118,6 +163,23 @@ def run (line : String) : String :=
     -- oracle-only case (two-parser agreement)
     match unhex h with
     | some _ => if f == "fa" || f == "fq" then "agree" else "bad-op"
+    | none => "bad-op"
+  | "mread" :: r :: sy :: rest =>
+    match kvNat? "r" r, kvNat? "sync" sy, glueObs rest with
+    | some nr, some _, some obs => if nr < 1 then "bad-op" else glueVerdict nr obs
+    | _, _, _ => "bad-op"
+  | "cli" :: rw :: pf :: cpu :: _m :: o :: _p :: rest =>
+    match kvNat? "rw" rw, kvNat? "pf" pf, kvNat? "cpu" cpu, kvNat? "o" o, glueObs rest with
+    | some rw, some pf, some cpu, some o, some obs =>
+      let (nrecs, ks, tr, nb) := obs
+      if nrecs.length == 1 then
+        -- one file: the iterator of the reader itself (batches 0 … k-1 of that file; `--paired-with`: paired one to one)
+        if tr.all (· == 0) && tr.length == ks.sum then s!"ok {nb} {nrecs.sum}" else "illegal-trace"
+      else glueVerdict (ObiVerif.ReadGlueCli.nReader ⟨rw, pf, cpu, o == 1⟩) obs
+    | _, _, _, _, _ => "bad-op"
+  | "cmd" :: _tool :: _cpu :: _m :: _o :: rest =>
+    match rest.mapM glueNrec with
+    | some nrecs => s!"exit0 {nrecs.sum}"
     | none => "bad-op"
   | _ => "bad-op"
 
